@@ -50,7 +50,7 @@ func ratOf(f float64) *big.Rat { return new(big.Rat).SetFloat64(f) }
 
 func checkC03(e *env) {
 	r := e.res
-	r.Rule = "every built-in tile matrix set that passes IsQuadTree x tile matrix ids (quick: 4 per set incl. the smallest and the largest <= 20; thorough: all <= 20) x random polygons at random places of the extent, " +
+	r.Rule = "every built-in tile matrix set that passes IsQuadTree x tile matrix ids (quick: 4 per set incl. the smallest and the largest <= 20, plus the first and the last deeper one; thorough: all) x random polygons at random places of the extent (deeper than level 32: near its lower left corner), " +
 		"ids requested alone and together, all flags; every returned coordinate must be bit-exactly ToGeomOrd(minX + k*span + span/2) with 0 <= k < 2^level, within the reported deviation (+2e-10 quantisation) of the ideal centre; " +
 		"quad: getQuadrantExtentAndCentroid against the model; plus the common snap stream. Non-trivial as for snap; distinct by op text."
 	accepted := acceptedBuiltins()
@@ -75,6 +75,13 @@ func checkC03(e *env) {
 		} else {
 			ids = []int{0, top / 3, 2 * top / 3, top}
 		}
+		// deeper ids too (level > 32): the index is built and snaps near the lower left corner of the extent, where pixel addresses still
+		// fit 32 bits (elsewhere it panics: finding F7)
+		for id := top + 1; id <= maxAll; id++ {
+			if e.tier == "thorough" || id == maxAll || id == top+1 {
+				ids = append(ids, id)
+			}
+		}
 		bl, tr, err := gs.tms.MatrixBoundingBox(0)
 		if err != nil {
 			r.Notes = append(r.Notes, name+": "+err.Error())
@@ -84,7 +91,9 @@ func checkC03(e *env) {
 			g := gs.gridFor(id)
 			lvl := uint(id) + gs.levelDiff
 			if g.depth != lvl {
-				e.res.violation(Violation{Oracle: "level=id+log2(tileWidth)+4", Op: fmt.Sprintf("grid %s id %d", name, id), Detail: fmt.Sprintf("index depth %d", g.depth)})
+				e.res.violation(Violation{Oracle: "level=id+log2(tileWidth)+4", Op: fmt.Sprintf("grid %s id %d", name, id), Impl: fmt.Sprintf("index depth %d, pixel %v", g.depth, float64(g.res)/1e10),
+					Detail: fmt.Sprintf("tile matrix %d of %s needs level %d, pixel = cellSize/16 = %v", id, name, lvl, gs.tms.TileMatrices[id].CellSize/16)})
+				continue // nothing below makes sense on another level's grid
 			}
 			_, devUnits, _, derr := pointindex.DeviationStats(gs.tms, id)
 			if derr != nil {
@@ -113,6 +122,9 @@ func checkC03(e *env) {
 				// a window somewhere inside the extent
 				spanPix := float64(uint64(1) << lvl)
 				fx, fy := e.rng.Float64()*(spanPix-18)+1, e.rng.Float64()*(spanPix-18)+1
+				if id > top {
+					fx, fy = e.rng.Float64()*100000+1, e.rng.Float64()*100000+1
+				}
 				if spanPix < 20 {
 					fx, fy = 0, 0
 					w.G = spanPix
